@@ -248,7 +248,12 @@ def feature_parity(ctx: Ctx, py: PyProgram, rs: RustProgram, rows: dict, ok_base
         feats_py[cname] = {"carry_in": kw.get("clear_carry", "False") != "True", "reverse": kw.get("reverse", "False") == "True", "bcd": kw.get("bcd", "False") == "True", "subtract": kw.get("subtract", "False") == "True"}
     feats_rs: dict[str, dict] = {}
     helper = rs.fn(isa.EVAL_RS, "LlamaExecutor::execute_multi_byte_binary")
-    hinit = [x for x in walk(helper.body) if x.get("k") == "let" and x["pat"].get("name") == "carry"]
+    def _carry_lets(body: Any) -> list:
+        # the running carry: the local whose value is finally stored into FC (identified by that store, not by its name)
+        fc_args = [a_ for c_ in walk(body) if c_.get("k") in ("call", "mcall") and (c_.get("m") == "set_reg" or expr_text(c_.get("f", {})).endswith("set_reg")) and c_["args"] and "RegName::FC" in expr_text(c_["args"][0]) for a_ in c_["args"][1:]]
+        names_ = {p_["p"] for a_ in fc_args for p_ in walk(a_) if p_.get("k") == "path"}
+        return [x for x in walk(body) if x.get("k") == "let" and x["pat"].get("k") == "p_ident" and x["pat"].get("name") in names_ and x.get("init") is not None and x["pat"].get("mut")]
+    hinit = _carry_lets(helper.body)
     if len(hinit) != 1:
         raise AnalysisError("execute_multi_byte_binary: `let mut carry = ..` not found")
     h_carry_in = "get_reg(RegName::FC)" in expr_text(hinit[0]["init"]).replace(" ", "")
@@ -268,7 +273,7 @@ def feature_parity(ctx: Ctx, py: PyProgram, rs: RustProgram, rows: dict, ok_base
             if cname:
                 feats_rs[cname]["subtract"] = expr_text(calls[0]["args"][-1]) == "true"
     darm = isa.rs_arm_for(rs, "Dadl")
-    dinit = [x for x in walk(darm["body"]) if x.get("k") == "let" and x["pat"].get("name") == "carry"]
+    dinit = _carry_lets(darm["body"])
     if len(dinit) != 1 or dinit[0]["init"].get("k") != "match":
         raise AnalysisError("Dadl/Dsbl arm: `let mut carry = match entry.kind {..}` not found")
     d_neg = any(x.get("k") == "unary" and x.get("op") == "-" for c in walk(darm["body"]) if c.get("k") == "call" and expr_text(c["f"]).endswith("advance_internal_addr_signed") for x in walk(c))
